@@ -38,7 +38,7 @@ func init() {
 		Rule: "case = sketch reached by a seeded history incl. cleared-then-refilled stores, negatives with every store kind and arbitrary non-negative float64 weights: ToProto -> proto.Marshal -> Unmarshal -> FromProtoWithStoreProvider(any kind) must give an Equals mapping and bitwise equal zero weight and bin weights (count within 1e-12); EncodeProto bytes must unmarshal to a message proto.Equal to ToProto(); " +
 			"hand-built messages mixing binCounts and contiguousBinCounts (dyadic weights where they overlap) must add up. Non-trivial = both stores non-empty and >=1 non-integer weight; distinct = hash of the history.",
 		Cases:     core.Scale(60000, 1500000),
-		Mandatory: []string{"oracle.proto_roundtrips", "oracle.stream_equals_message", "oracle.mixed_message_checks", "weights.arbitrary", "source.cleared_then_refilled", "proto.target.dense", "proto.target.sparse", "proto.target.paginated", "proto.target.collapsing_lowest", "proto.target.collapsing_highest", "proto.via_FromProto"},
+		Mandatory: []string{"oracle.proto_roundtrips", "oracle.stream_equals_message", "oracle.mixed_message_checks", "weights.arbitrary", "source.cleared_then_refilled", "proto.target.dense", "proto.target.sparse", "proto.target.paginated", "proto.target.collapsing_lowest", "proto.target.collapsing_highest", "proto.via_FromProto", "proto.via_paginated_method"},
 		Run:       runC09,
 	})
 }
@@ -469,7 +469,29 @@ func runC09(c *core.Ctx) {
 		}
 		var d *ddsketch.DDSketch
 		var derr error
-		if tk == gen.SDense && r.Bool() {
+		if tk == gen.SPaginated && r.Bool() {
+			c.Count("proto.via_paginated_method", 1)
+			c.Guard("BufferedPaginatedStore.MergeWithProto", func() {
+				ps, ns := store.NewBufferedPaginatedStore(), store.NewBufferedPaginatedStore()
+				if back.PositiveValues != nil {
+					ps.MergeWithProto(back.PositiveValues)
+				}
+				if back.NegativeValues != nil {
+					ns.MergeWithProto(back.NegativeValues)
+				}
+				var mp mapping.IndexMapping
+				mp, derr = mapping.FromProto(back.Mapping)
+				if derr == nil {
+					d = ddsketch.NewDDSketch(mp, ps, ns)
+					if back.ZeroCount != 0 {
+						derr = d.AddWithCount(0, back.ZeroCount)
+					}
+				}
+			})
+			if c.Failed() {
+				return
+			}
+		} else if tk == gen.SDense && r.Bool() {
 			c.Count("proto.via_FromProto", 1)
 			if c.Guard("FromProto", func() { d, derr = ddsketch.FromProto(&back) }) {
 				return
@@ -614,7 +636,30 @@ func runC09Mixed(c *core.Ctx) {
 		target := gen.StoreSpec{Kind: tk}
 		var d *ddsketch.DDSketch
 		var derr error
-		if tk == gen.SDense && r.Bool() {
+		if tk == gen.SPaginated && r.Bool() {
+			// the paginated store's own MergeWithProto method
+			c.Count("proto.via_paginated_method", 1)
+			c.Guard("BufferedPaginatedStore.MergeWithProto", func() {
+				ps, ns := store.NewBufferedPaginatedStore(), store.NewBufferedPaginatedStore()
+				if back.PositiveValues != nil {
+					ps.MergeWithProto(back.PositiveValues)
+				}
+				if back.NegativeValues != nil {
+					ns.MergeWithProto(back.NegativeValues)
+				}
+				var mp mapping.IndexMapping
+				mp, derr = mapping.FromProto(back.Mapping)
+				if derr == nil {
+					d = ddsketch.NewDDSketch(mp, ps, ns)
+					if back.ZeroCount != 0 {
+						derr = d.AddWithCount(0, back.ZeroCount)
+					}
+				}
+			})
+			if c.Failed() {
+				return
+			}
+		} else if tk == gen.SDense && r.Bool() {
 			// the convenience entry point (dense stores)
 			c.Count("proto.via_FromProto", 1)
 			if c.Guard("FromProto", func() { d, derr = ddsketch.FromProto(&back) }) {
